@@ -6,7 +6,7 @@
 EXTENDS Pipeline, Json
 
 CONSTANTS ExtChoice,   \* which extension lists: "one" | "small" | "full"
-          ReqChoice    \* which request alphabet: "sched3" | "small" | "full"
+          ReqChoice    \* which request alphabet: "sched3" | "sched" | "small" | "full"
 
 All  == [pm |-> TRUE,  cm |-> TRUE,  oi |-> TRUE,  ri |-> TRUE,  rf |-> TRUE,  fi |-> TRUE]
 Icpt == [pm |-> FALSE, cm |-> FALSE, oi |-> TRUE,  ri |-> TRUE,  rf |-> TRUE,  fi |-> TRUE]
@@ -46,7 +46,11 @@ Alphabet(exts) ==
                 P("Q2", "ok",  "found",    "good", NoRej, <<"data">>, R2),
                 P("Q1", "ok",  "notfound", "good", NoRej, <<"data">>, R1),
                 P("QU", "unk", "found",    "good", NoRej, <<"data">>, R2) }
-  IN  IF ReqChoice = "small" THEN core ELSE IF ReqChoice = "sched3" THEN few ELSE core \cup more \cup rejs
+      inv  == { P("QI", "inv", "found", "good", NoRej, <<"data">>, R2) }   \* fails a validation rule other than field existence
+  IN  IF ReqChoice = "small" THEN core
+      ELSE IF ReqChoice = "sched" THEN core \cup inv
+      ELSE IF ReqChoice = "sched3" THEN few
+      ELSE core \cup more \cup rejs
 
 MCInit ==
   \E c \in Cfgs :
